@@ -39,6 +39,12 @@ def scenarios(tier):
     # a key that was Updated when a reclaiming snapshot moved every record (a tombstone dropped before it) is updated again:
     # the in-place write must go to the record's NEW position
     S.append(("in-place-after-reclaim-moved-the-record", base + ["C 1 remove a", "C 1 snapshot false", "SNAP", "C 1 set c c2", "C 1 snapshot true", "SNAP", "C 1 set c c3", "C 1 set bb b3"], False))
+    # the positions the in-place update relies on are rebuilt by the LOADER at start-up: after a restart, a key stored behind a tombstone
+    # record (and behind a longer / shorter key) is updated and removed — the interrupted snapshot must still touch that key's record only
+    re_open = ["RESTART", "SESS 1", "C 1 auth adm pw", "C 1 use-db t tok"]
+    S.append(("update-after-restart-behind-a-tombstone", base + ["C 1 remove a", "C 1 snapshot false", "SNAP"] + re_open + ["C 1 set c c2", "C 1 set bb b2"], False))
+    S.append(("remove-after-restart-behind-a-tombstone", base + ["C 1 set dddd 4", "C 1 remove bb", "C 1 snapshot false", "SNAP"] + re_open + ["C 1 remove c", "C 1 set dddd four", "C 1 set e new"], False))
+    S.append(("update-after-restart-after-reclaim", base + ["C 1 remove a", "C 1 snapshot true", "SNAP"] + re_open + ["C 1 set c c2", "C 1 increment n"], False))
     # entries written by the conflict code of an arbiter database (a key parked at the in-conflict version, the conflict's registry key)
     # go through the snapshot writer like any other: a NEW key must be appended, never written in place
     arb = ["C 1 create-db ta tk arbiter", "C 1 use-db ta tk", "SESS 3", "C 3 use-db ta tk", "C 3 arbiter", "C 1 set a 1", "C 1 set bb 22", "C 1 snapshot false", "SNAP"]
